@@ -134,7 +134,24 @@ def run(ctx, mod, args, t0):
 
     # ---- 2: correspondence + property oracle on the implementation
     res = Result()
-    mod.run(ctx, res)
+    try:
+        mod.run(ctx, res)
+    except Infra:
+        raise
+    except Exception as e:
+        # An exception escaped the property module.  If it was raised inside the implementation (innermost frame under the
+        # repository) by a call the module makes on every run, the implementation's behaviour changed from "returns" to
+        # "raises": that is a finding about the code, reported with the traceback as replay.  Raised in harness code: infra.
+        tb = traceback.extract_tb(e.__traceback__)
+        inner = tb[-1].filename if tb else ''
+        site = next((f for f in reversed(tb) if f.filename.startswith(os.path.join(common.VERIF, 'harness'))), None)
+        if os.path.abspath(inner).startswith(os.path.abspath(common.REPO) + os.sep) and site is not None:
+            res.fail('%s:impl-raised:%s@%s:%d' % (prop, type(e).__name__, os.path.basename(site.filename), site.lineno),
+                     'the implementation raised %s (%s) in a call this check makes on every run (%s:%d: %s); on the pinned tree the call returns'
+                     % (type(e).__name__, str(e)[:200], os.path.basename(site.filename), site.lineno, (site.line or '').strip()[:120]),
+                     {'traceback': traceback.format_exception(type(e), e, e.__traceback__)[-12:]})
+        else:
+            raise
 
     known = common.load_known(prop)
     open_keys = {e['key']: e for e in known if e.get('status') == 'open'}
